@@ -118,4 +118,90 @@ theorem keptViews_S {z : Bytes} {a : Archive} : ∀ (kms : List KM) (mask : List
     · simp only [Bool.not_true, Bool.false_eq_true, if_false, if_true, Nat.zero_add]
       exact ih _ _ _ hrest
 
+
+/-! ### the guard of fix-F7g at the level of the specification -/
+
+
+/-- the guard of fix-F7g on the kept members, at the level of the specification: a kept member (not deleted by the
+    positional mask) that moves (`hoff ≠ o`) and needs the ZIP64 field must have room for it in its extra block -/
+def keptRoomS (a : Archive) : List Bool → List SpecZip.Member → Nat → Bool
+  | _, [], _ => true
+  | mask, sm :: r, o =>
+    if mask.headD false then keptRoomS a (mask.drop 1) r o
+    else (decide (sm.entry.hoff = o) || !(decide (sm.entry.csize ≥ u32Max ∨ sm.entry.usize ≥ u32Max ∨ o ≥ u32Max)) ||
+          decide (sm.entry.extra.length + 28 ≤ 65535)) && keptRoomS a (mask.drop 1) r (o + specTotal a sm)
+
+theorem keptRoom_S {z : Bytes} {a : Archive} : ∀ (kms : List KM) (mask : List Bool) (at_ o : Nat), MeasuredL z a at_ kms →
+    headersOK ((keptPMs z (setMask mask kms) o).map (·.1)) = keptRoomS a mask (kms.map (·.2.1)) o := by
+  intro kms
+  induction kms with
+  | nil => intro _ _ _ _; rfl
+  | cons q r ih =>
+    intro mask at_ o hM
+    obtain ⟨k, sm, m⟩ := q
+    have ht := measured_total hM
+    obtain ⟨_, hat, _, ⟨l, ddb, hfile⟩, _, _, _, _, hrest⟩ := hM
+    simp only [setMask, List.map_cons, keptPMs, keptRoomS]
+    cases mask.headD false
+    · simp only [Bool.not_false, if_true, Bool.false_eq_true, if_false, List.map_cons, headersOK, List.all_cons]
+      have := ih (mask.drop 1) _ (o + m.total) hrest
+      simp only [headersOK] at this
+      rw [this, ht]
+      congr 1
+      -- the placed entry
+      obtain ⟨b1, b2, _, b4, r', _, hr⟩ := entryAt_some hat
+      have hlen : sm.entry.len = 46 + fld (z.drop at_) 28 2 + fld (z.drop at_) 30 2 + fld (z.drop at_) 32 2 := by rw [hr]; rfl
+      have hrawne : (fileOf z at_ sm.entry).raw ≠ [] := by
+        show (z.drop at_).take sm.entry.len ≠ []
+        intro c
+        have := congrArg List.length c
+        rw [List.length_take, List.length_drop] at this
+        simp at this; omega
+      have hoff : m.file.offset = sm.entry.hoff := by rw [hfile]; rfl
+      have hraw : m.file.raw = (fileOf z at_ sm.entry).raw := by rw [hfile]
+      simp only [dirHeaderOK, placed, hoff, hraw]
+      have e1 : (placed o m).csize = sm.entry.csize := by simp only [placed, hfile, fileOf]
+      by_cases c : sm.entry.hoff = o
+      · simp [c, hrawne]
+      · have : m.file.csize = sm.entry.csize ∧ m.file.usize = sm.entry.usize ∧ m.file.extra = sm.entry.extra := by
+          rw [hfile]; exact ⟨rfl, rfl, rfl⟩
+        simp [c, this.1, this.2.1, this.2.2]
+    · simp only [Bool.not_true, Bool.false_eq_true, if_false, if_true]
+      exact ih _ _ _ hrest
+
+theorem newFiles_ok (mt md : Nat) : ∀ (news : List NewMember) (o : Nat), (∀ n ∈ news, NewOK n) →
+    headersOK (newEntries mt md news o).1 = true := by
+  intro news
+  induction news with
+  | nil => intro _ _; rfl
+  | cons n ns ih =>
+    intro o hok
+    have hn := (hok n (List.mem_cons_self ..)).extra
+    simp only [newEntries, headersOK, List.all_cons, Bool.and_eq_true]
+    refine ⟨?_, ih _ (fun x hx => hok x (List.mem_cons_of_mem _ hx))⟩
+    have hd : decide ((newEntryAt mt md n o).extra.length + 28 ≤ 65535) = true := by
+      have : (newEntryAt mt md n o).extra = n.extra := rfl
+      rw [this]; simp; omega
+    unfold dirHeaderOK
+    rw [hd, Bool.or_true]
+
+theorem headersOK_append (a b : List File) : headersOK (a ++ b) = (headersOK a && headersOK b) := by
+  simp [headersOK, List.all_append]
+
+/-- with room in every extra block nothing is refused -/
+theorem keptRoomS_of_room (a : Archive) : ∀ (ms : List SpecZip.Member) (mask : List Bool) (o : Nat),
+    (∀ sm ∈ ms, sm.entry.extra.length + 28 < 2 ^ 16) → keptRoomS a mask ms o = true := by
+  intro ms
+  induction ms with
+  | nil => intro _ _ _; rfl
+  | cons sm r ih =>
+    intro mask o h
+    have h1 := h sm (List.mem_cons_self ..)
+    have h2 := fun m o => ih m o (fun x hx => h x (List.mem_cons_of_mem _ hx))
+    simp only [keptRoomS]
+    split
+    · exact h2 _ _
+    · simp only [Bool.and_eq_true, Bool.or_eq_true, decide_eq_true_eq]
+      exact ⟨Or.inr (by omega), h2 _ _⟩
+
 end Relic.Zip
